@@ -16606,6 +16606,11 @@ func (msg *BGPUpdate) DecodeFromBytes(data []byte, options ...*MarshallingOption
 	}
 	options = append(options, &o)
 
+	// Whatever is wrong with an individual attribute, the NLRI field starts at
+	// the declared end of the attributes (RFC 7606 section 4): the routes it
+	// names must be known for treat-as-withdraw to take effect.
+	nlriData := data[msg.TotalPathAttributeLen:]
+
 	msg.PathAttributes = []PathAttributeInterface{}
 	for pathlen := msg.TotalPathAttributeLen; pathlen > 0; {
 		var e error
@@ -16642,7 +16647,8 @@ func (msg *BGPUpdate) DecodeFromBytes(data []byte, options ...*MarshallingOption
 			if e.(*MessageError).Stronger(strongestError) {
 				strongestError = e
 			}
-			return strongestError
+			data = nlriData
+			break
 		}
 		pathlen -= pLen
 		if len(data) < p.Len(options...) {
@@ -16651,7 +16657,8 @@ func (msg *BGPUpdate) DecodeFromBytes(data []byte, options ...*MarshallingOption
 			if e.(*MessageError).Stronger(strongestError) {
 				strongestError = e
 			}
-			return strongestError
+			data = nlriData
+			break
 		}
 		data = data[p.Len(options...):]
 		if e == nil || e.(*MessageError).ErrorHandling != ERROR_HANDLING_ATTRIBUTE_DISCARD {
